@@ -152,3 +152,15 @@ func (s *Sim) Dump() [][2][]byte {
 	}
 	return out
 }
+
+// Load replaces the BFT state records by a dump taken earlier (fork-tree exploration: one shared database, O(1) per node).
+func (s *Sim) Load(dump [][2][]byte) {
+	b := s.DB.NewBatch()
+	for _, kv := range s.DB.Iterate(statePrefix, -1, false) {
+		b.Del(kv.Key())
+	}
+	for _, kv := range dump {
+		b.Set(kv[0], kv[1])
+	}
+	s.DB.Write(b)
+}
